@@ -87,7 +87,7 @@ PROPERTIES = {
     "C09": {
         "decided_by": "Proved: _create_clingo_constraints and _create_clingo_fixed_point_constraints add EXACTLY the rules of the specified answer-set "
                       "program (rule-level specification over an abstract syntax of the generated texts; enumeration mode matches the problem); "
-                      "trappist_async and compute_fixed_point_reduced_STG_async (bodies, for a Petri-net argument) hand clingo the specified program of the "
+                      "trappist_async (bodies for a Petri-net and for a BooleanNetwork argument) and compute_fixed_point_reduced_STG_async hand clingo the specified program of the "
                       "RIGHT arguments (variables and sources extracted from the given net by the verified extract_variable_names / "
                       "extract_source_variables, the net reduced by exactly the transitions leaving a retained value) and feed the callback the decoded "
                       "models in order until it returns False; _clingo_model_to_space / _clingo_model_to_fixed_point decode atoms with the right polarity; "
@@ -100,7 +100,7 @@ PROPERTIES = {
                     "conflict-free set of declared place atoms",
                     "glue between the body-level postcondition of the two *_async functions and their call-site view (enumeration of TrapSol / ReducedSol): "
                     "L4 (Lean, siphon half; reverse-time half cited), L9 (Lean): stable models of the specified program = the requested spaces",
-                    "the BooleanNetwork branch of trappist_async (network_to_petrinet first) is assumed with network_to_petrinet"],
+                    "for a BooleanNetwork argument the translation network_to_petrinet is assumed (the program is then built for the translated net)"],
     },
     "C10": {
         "decided_by": "Proved: restrict_petrinet_to_subspace: full characterisation of the node and edge sets of the result for an arbitrary (uninterpreted) "
